@@ -272,15 +272,17 @@ def gen_case(rng, idx):
             exprs.append('SYS("%s")' % nm)
     if ss:
         for k, (c, _) in enumerate(ss["comps"]):
-            heads += ["ss%d" % k, "sr%d" % k]
-            exprs += ['S_S("%s")' % c, 'SR("%s")' % c]
+            heads += ["ss%d" % k, "sr%d" % k, "ssi%d" % k]
+            exprs += ['S_S("%s")' % c, 'SR("%s")' % c, 'SI("%s")' % c]
     lines.append(" -headings " + " ".join(heads))
     ln = 10
     for i in range(0, len(exprs), 6):
         lines.append(" %d PUNCH %s" % (ln, ", ".join(exprs[i:i + 6])))
         ln += 10
+    if ss:
+        lines += ["SAVE solid_solutions 1", "DUMP", " -solid_solutions 1"]
     lines.append("END")
-    return {"id": "c%05d" % idx, "db": db, "text": "\n".join(lines) + "\n", "flags": [],
+    return {"id": "c%05d" % idx, "db": db, "text": "\n".join(lines) + "\n", "flags": ["dump"] if ss else [],
             "meta": {"pps": pps, "exch": exch, "surf": surf, "ss": ss, "hp": hp, "temp": temp}}
 
 
@@ -319,9 +321,21 @@ def corpus():
     meta = {"pps": pps, "exch": {"sites": {"X": 0.01}, "mode": "equilibrate"},
             "surf": {"sites": {"Hfo_s": 0.00005, "Hfo_w": 0.001}, "mode": "equilibrate", "edl": "ddl"},
             "ss": {"name": "CaSrBa", "comps": [("Strontianite", 0.001), ("Witherite", 0.002)], "ideal": True}, "hp": False, "temp": 35.0}
-    text += _punch(pps, ["sysX", "sys_Hfo_s", "sys_Hfo_w", "ss0", "sr0", "ss1", "sr1"],
-                   ['SYS("X")', 'SYS("Hfo_s")', 'SYS("Hfo_w")', 'S_S("Strontianite")', 'SR("Strontianite")', 'S_S("Witherite")', 'SR("Witherite")'])
-    out.append({"id": "corpus-seven-phases", "db": "phreeqc.dat", "text": text, "flags": [], "meta": meta})
+    text += "SAVE solid_solutions 1\n"
+    text += _punch(pps, ["sysX", "sys_Hfo_s", "sys_Hfo_w", "ss0", "sr0", "ssi0", "ss1", "sr1", "ssi1"],
+                   ['SYS("X")', 'SYS("Hfo_s")', 'SYS("Hfo_w")', 'S_S("Strontianite")', 'SR("Strontianite")', 'SI("Strontianite")',
+                    'S_S("Witherite")', 'SR("Witherite")', 'SI("Witherite")']).replace("END\n", "DUMP\n -solid_solutions 1\nEND\n")
+    out.append({"id": "corpus-seven-phases", "db": "phreeqc.dat", "text": text, "flags": ["dump"], "meta": meta})
+    # Guggenheim binary solid solution (ex10-like) at 35 C
+    pps = [_pp("Gypsum", 0, 0)]
+    text = ("SOLUTION 1\n temp 35\n pH 7.5\n Na 10\n Cl 10 charge\n Ca 2\n C(4) 3\n Sr 0.5\n S(6) 1\nEQUILIBRIUM_PHASES 1\n Gypsum 0 0\n"
+            "SOLID_SOLUTIONS 1\n SSol\n  -comp1 Calcite 0.001\n  -comp2 Strontianite 0.0005\n  -Gugg_nondim 2.5 0.5\nSAVE solid_solutions 1\n")
+    meta = {"pps": pps, "exch": None, "surf": None,
+            "ss": {"name": "SSol", "comps": [("Calcite", 0.001), ("Strontianite", 0.0005)], "ideal": False, "gugg": (2.5, 0.5)}, "hp": False, "temp": 35.0}
+    text += _punch(pps, ["ss0", "sr0", "ssi0", "ss1", "sr1", "ssi1"],
+                   ['S_S("Calcite")', 'SR("Calcite")', 'SI("Calcite")', 'S_S("Strontianite")', 'SR("Strontianite")', 'SI("Strontianite")']
+                   ).replace("END\n", "DUMP\n -solid_solutions 1\nEND\n")
+    out.append({"id": "corpus-guggenheim", "db": "phreeqc.dat", "text": text, "flags": ["dump"], "meta": meta})
     # explicit exchanger + acid added
     pps = [_pp("Calcite", 0, 0.05), _pp("Gypsum", 0, 0)]
     text = ("SOLUTION 1\n pH 7.5\n Na 5\n Cl 5 charge\n Ca 2\n C(4) 3\n S(6) 1\nEQUILIBRIUM_PHASES 1\n Calcite 0 0.05\n Gypsum 0 0\n"
@@ -347,11 +361,47 @@ def q(x):
     return vlib.coq_Q(x)
 
 
+def parse_dump_ss(dump):
+    """SOLID_SOLUTIONS_RAW block of a DUMP string -> {"comps": {name: {...}}, "a0":.., "a1":.., "xb1":.., "xb2":.., "miscibility":.., "ss_in":..}
+    (first solid solution only) or None."""
+    if not dump or "SOLID_SOLUTIONS_RAW" not in dump:
+        return None
+    out = {"comps": {}}
+    cur = None
+    started = False
+    for raw in dump.split("SOLID_SOLUTIONS_RAW", 1)[1].split("\n")[1:]:
+        t = raw.split("#")[0].split()
+        if not t:
+            continue
+        if not t[0].startswith("-"):
+            break
+        k = t[0][1:]
+        if k == "solid_solution":
+            if started:
+                break
+            started = True
+            continue
+        if k == "component" and len(t) > 1:
+            cur = out["comps"].setdefault(t[1], {})
+            continue
+        if len(t) == 2:
+            try:
+                v = float(t[1])
+            except ValueError:
+                continue
+            if k in ("moles", "fraction_x", "log10_lambda", "log10_fraction_x") and cur is not None and k not in cur:
+                cur[k] = v
+            elif k in ("a0", "a1", "xb1", "xb2", "miscibility", "ss_in", "total_moles") and k not in out:
+                out[k] = v
+                cur = None if k == "a0" else cur
+    return out
+
+
 def _num(v):
     return isinstance(v, float) and math.isfinite(v)
 
 
-def build_case(meta, row, init_rows=None):
+def build_case(meta, row, init_rows=None, dump=None):
     """(coq term, python-side list of item descriptions for messages) or None if the row lacks a value.
     row: the selected-output row of the reaction step; init_rows: {"i_exch": row, "i_surf": row} of the initial
     exchange / surface equilibrations (site totals are checked there as well)."""
@@ -408,7 +458,27 @@ def build_case(meta, row, init_rows=None):
             obs.append((c, m, a))
         sss.append("SS %s [%s]" % ("true" if meta["ss"]["ideal"] else "false", "; ".join(comps)))
         items.append(("ss", meta["ss"]["ideal"], obs))
-    term = "CASE [%s] [%s] [%s] [%s]" % ("; ".join(pps), "; ".join(exs), "; ".join(sfs), "; ".join(sss))
+    ssx = []
+    d = parse_dump_ss(dump) if meta["ss"] else None
+    if d and d.get("ss_in") == 1.0 and all(k in d for k in ("a0", "a1")):
+        xs = []
+        okc = True
+        for k, (c, _) in enumerate(meta["ss"]["comps"]):
+            dc = d["comps"].get(c) or {}
+            si = row.get("ssi%d" % k)
+            m = row.get("ss%d" % k)
+            if not (_num(si) and _num(m) and all(_num(dc.get(f)) for f in ("fraction_x", "log10_lambda", "log10_fraction_x"))) or si < -90:
+                okc = False
+                break
+            xs.append((c, m, si, dc["fraction_x"], dc["log10_fraction_x"], dc["log10_lambda"]))
+        if okc and xs:
+            gap = False
+            if not meta["ss"]["ideal"] and d.get("miscibility") == 1.0 and len(xs) == 2 and _num(d.get("xb1")) and _num(d.get("xb2")):
+                gap = d["xb1"] - 1e-9 <= xs[1][3] <= d["xb2"] + 1e-9
+            ssx.append("SSX %s %s %s %s [%s]" % ("true" if meta["ss"]["ideal"] else "false", "true" if gap else "false", q(d["a0"]), q(d["a1"]),
+                                                "; ".join("SSXC %s %s %s %s %s" % tuple(q(v) for v in x[1:]) for x in xs)))
+            items.append(("ssx", meta["ss"]["ideal"], gap, d["a0"], d["a1"], xs))
+    term = "CASE [%s] [%s] [%s] [%s] [%s]" % ("; ".join(pps), "; ".join(exs), "; ".join(sfs), "; ".join(sss), "; ".join(ssx))
     return term, items
 
 
@@ -431,6 +501,26 @@ def py_verdict(items):
             _, nm, d, f = it
             if abs(f - d) > 1e-8 * d:
                 bad.append((it[0], "%s %s: defined %r, sum of occupied equivalents %r" % (it[0], nm, d, f)))
+        elif it[0] == "ssx":
+            _, ideal, gap, a0, a1, xs = it
+            tot = sum(x[1] for x in xs)
+            msgs = []
+            if any(x[3] < 0 for x in xs) or abs(sum(x[3] for x in xs) - 1) > 1e-9:
+                msgs.append("stored mole fractions %r are not a point of the simplex" % [x[3] for x in xs])
+            if not gap and any(abs(x[3] * tot - x[1]) > 1e-9 * tot for x in xs):
+                msgs.append("stored mole fractions %r differ from n_i/n %r" % ([x[3] for x in xs], [x[1] / tot for x in xs]))
+            if any(abs(x[2] - (x[4] + x[5])) > 1e-6 for x in xs):
+                msgs.append("SI differs from log10(x)+log10(lambda): " + "; ".join("%s SI=%r log10x=%r log10lambda=%r" % (x[0], x[2], x[4], x[5]) for x in xs))
+            if ideal and any(x[5] != 0 for x in xs):
+                msgs.append("ideal solution with log10 lambda %r" % [x[5] for x in xs])
+            if not ideal and len(xs) == 2:
+                L = math.log(10.0)
+                g1 = xs[1][3] ** 2 * (a0 - a1 * (3 - 4 * xs[1][3]))
+                g2 = xs[0][3] ** 2 * (a0 + a1 * (4 * xs[1][3] - 1))
+                if abs(xs[0][5] * L - g1) > 1e-9 or abs(xs[1][5] * L - g2) > 1e-9:
+                    msgs.append("stored ln lambda (%r, %r) differ from the Guggenheim expressions (%r, %r)" % (xs[0][5] * L, xs[1][5] * L, g1, g2))
+            for mm in msgs:
+                bad.append(("ssx", "solid solution: " + mm))
         else:
             _, ideal, obs = it
             tot = sum(m for _, m, _ in obs)
@@ -492,7 +582,7 @@ def rows_by_state(res):
 
 def evaluate(ctx, jobs):
     res = vlib.run_inputs(jobs, timeout_each=30, workers=min(6, vlib.NCPU))
-    stats = {"run": 0, "error": 0, "timeout": 0, "no_row": 0, "checked": 0}
+    stats = {"run": 0, "error": 0, "timeout": 0, "no_row": 0, "checked": 0, "with_stored_ss": 0}
     terms, keep = [], []
     for j in jobs:
         r = res.get(j["id"]) or {}
@@ -507,7 +597,7 @@ def evaluate(ctx, jobs):
         if row is None:
             stats["no_row"] += 1
             continue
-        bc = build_case(j["meta"], row, init_rows)
+        bc = build_case(j["meta"], row, init_rows, r.get("dump"))
         if bc is None:
             stats["no_row"] += 1
             continue
@@ -516,6 +606,7 @@ def evaluate(ctx, jobs):
     verdicts = coq_check(terms) if terms else []
     for (j, items, row), ok in zip(keep, verdicts):
         stats["checked"] += 1
+        stats["with_stored_ss"] += any(it[0] == "ssx" for it in items)
         m = j["meta"]
         fp = [j["db"], len(m["pps"]), sorted(p["kind"] for p in m["pps"]), (m["exch"] or {}).get("mode"), (m["surf"] or {}).get("mode"), bool(m["ss"]),
               [it[5] > 0 for it in items if it[0] == "pp"]]
@@ -542,7 +633,7 @@ def run(ctx):
     if ctx.replay:
         rp = json.load(open(ctx.replay))
         if rp.get("kind") == "input":
-            job = {"id": "replay", "db": rp["database"], "text": rp["input_text"], "flags": [], "meta": rp["meta"]}
+            job = {"id": "replay", "db": rp["database"], "text": rp["input_text"], "flags": ["dump"] if "\nDUMP" in rp["input_text"] else [], "meta": rp["meta"]}
             st = evaluate(ctx, [job])
             ctx.extra["replay_stats"] = st
             ctx.rule = "replay of one recorded input"
@@ -552,7 +643,7 @@ def run(ctx):
     if not ok:
         n = max(n, 240)       # a proof about the regenerated code broke: search harder for a concrete failing input
     jobs = corpus() + [gen_case(ctx.rng, i) for i in range(n)]
-    stats = {"run": 0, "error": 0, "timeout": 0, "no_row": 0, "checked": 0}
+    stats = {"run": 0, "error": 0, "timeout": 0, "no_row": 0, "checked": 0, "with_stored_ss": 0}
     B = 400
     for i in range(0, len(jobs), B):
         st = evaluate(ctx, jobs[i:i + B])
